@@ -1,7 +1,7 @@
 (* C15 — property theorems only. M is `run true` over the tables of the source (Model.v + Interp.v), S is
    `run false` (Spec.v + Interp.v); the theorems over the tables regenerated on every run are in
    TableProofs.v. *)
-From C15 Require Import Model Spec Interp Corr IntProofs WordProofs EnglishProofs Proofs.
+From C15 Require Import Model Spec Interp Corr IntProofs WordProofs EnglishProofs RomanProofs Proofs.
 
 (* ======== ~D ~B ~O ~X ~nR: "render any integer in the right base with the requested width, padding, sign
    and grouping" ======== *)
@@ -60,6 +60,13 @@ Print Assumptions C15_roman_domain.
 Theorem C15_dirR_roman_is_roman : forall old z, (1 <= z <= 3999)%Z -> go_roman src_tables old (dec_text z) = std_roman old z.
 Proof. exact go_roman_is_roman. Qed.
 Print Assumptions C15_dirR_roman_is_roman.
+(* (5b) ... and for EVERY integer, not only 1..3999: the Roman branch of dirR (the sign test, "4 < len || 3 < len && '3' <
+   digits[0]", the loop over the digits) and the definition agree — the numeral inside the range, no numeral outside —
+   EXACTLY when the integer is not 0; at 0 the Go code writes the empty string (finding C15-roman-zero). Inside the
+   range by (5); outside by the length and the first character of the decimal text. *)
+Theorem C15_dirR_roman_exact : forall old z, go_roman src_tables old (dec_text z) = std_roman old z <-> z <> 0%Z.
+Proof. exact go_roman_exact. Qed.
+Print Assumptions C15_dirR_roman_exact.
 
 (* (6) English, for EVERY integer of absolute value below 10^66 (the range of the scale words), cardinal and
    ordinal: the text of the definition reads back to the integer (by induction over the groups of three digits;
@@ -191,8 +198,8 @@ Theorem C15_literal_run : forall n b T fuel c,
 Proof. exact literal_run. Qed.
 Print Assumptions C15_literal_run.
 
-(* (12) At the sites of the integer and the Roman writer the two readings give the same result and add no taint, for
-   every control record and parameter list: these sites never leave the guard (consequences of (1) and (5)). *)
+(* (12) At the sites of the integer, the Roman and the English writer the two readings give the same result and add no taint, for
+   every control record and parameter list: the integer and Roman (1..3999) sites never leave the guard (consequences of (1) and (5)). *)
 Theorem C15_integer_site_coincides : forall base off colon at_ ps c z, (2 <= base <= 36)%N ->
   arg_at c = Some (VInt z) -> dir_int true base off colon at_ ps c = dir_int false base off colon at_ ps c.
 Proof. exact integer_site_coincides. Qed.
@@ -201,12 +208,22 @@ Theorem C15_roman_site_coincides : forall colon c z, (1 <= z <= 3999)%Z -> arg_a
   dir_radix true src_tables colon true [] c = dir_radix false src_tables colon true [] c.
 Proof. exact roman_site_coincides. Qed.
 Print Assumptions C15_roman_site_coincides.
+(* the same for every integer but 0 (Roman) and for every integer inside english_ok (English, cardinal and ordinal):
+   consequences of (5b) and (6b); so ~R ~:R ~@R ~:@R without parameters leave the guard only at the known findings. *)
+Theorem C15_roman_site_coincides_all : forall colon c z, z <> 0%Z -> arg_at c = Some (VInt z) ->
+  dir_radix true src_tables colon true [] c = dir_radix false src_tables colon true [] c.
+Proof. exact roman_site_coincides_all. Qed.
+Print Assumptions C15_roman_site_coincides_all.
+Theorem C15_english_site_coincides : forall colon c z, english_ok colon (Z.abs_N z) = true -> arg_at c = Some (VInt z) ->
+  dir_radix true src_tables colon false [] c = dir_radix false src_tables colon false [] c.
+Proof. exact english_site_coincides. Qed.
+Print Assumptions C15_english_site_coincides.
 
 (* FULL statement wanted:  forall T fuel control args, untainted (M_run T fuel control args) = true ->
    fst (M_run T fuel control args) = fst (S_run fuel control args)   (inside the guard the model of the Go code
    renders what the definition renders). NOT proved; it is evaluated on every case of every run (code 3 of
-   Corr.check_case) and holds by construction wherever no site is consulted; (1) and (5) discharge it for the
-   integer and Roman sites. *)
+   Corr.check_case) and holds by construction wherever no site is consulted; (1), (5b) and (6b) discharge it for the
+   integer, Roman and English sites. *)
 
 (* ======== outside the guard: the known findings, and the guard is satisfiable ======== *)
 Theorem C15_known_deviations_refuted : forallb deviates deviation_witnesses = true.
